@@ -177,7 +177,7 @@ def conform(R, wd, k, j, c, bound, pathcap):
     try:
         tr = os.path.join(wd, "impl.txt")
         subprocess.run([JOBS, "--dump-traces", implcfg, "--bound", str(bound), "--outfile", tr], check=True, cwd=wd,
-                       stdout=subprocess.DEVNULL, stderr=subprocess.DEVNULL, timeout=1700)
+                       stdout=subprocess.DEVNULL, stderr=subprocess.DEVNULL, timeout=600)
         n_impl = 0
         for line in open(tr):
             verdict, steps, ex, final, msg = parse_trace(line)
@@ -204,7 +204,7 @@ def conform(R, wd, k, j, c, bound, pathcap):
                 fh.write(",".join("%d:%s" % (nodes[x]["last"][0], CLASS[nodes[x]["last"][1]]) for x in p[1:] if nodes[x]["last"][1] not in SILENT) + "\n")
         of = os.path.join(wd, "forced.txt")
         subprocess.run([JOBS, "--run-abs", implcfg, "--absfile", af, "--outfile", of], check=True, cwd=wd,
-                       stdout=subprocess.DEVNULL, stderr=subprocess.DEVNULL, timeout=1700)
+                       stdout=subprocess.DEVNULL, stderr=subprocess.DEVNULL, timeout=600)
         n_model = 0
         for p, line in zip(paths, open(of).read().splitlines()):
             verdict, steps, ex, final, msg = parse_trace(line)
@@ -218,6 +218,10 @@ def conform(R, wd, k, j, c, bound, pathcap):
             if nodes[p[-1]]["execlog"] != ex or nodes[p[-1]]["jobs"] != final:
                 raise Unbound("final state differs on a forced model path")
             R.cls(("m2i", cfgname, tuple(ex), tuple(final)))
+    except subprocess.TimeoutExpired as e:
+        R.count("configs_conformance_timed_out")
+        R.cap("conformance run for %s exceeded its time limit: model not used as evidence for this configuration" % cfgname)
+        return nstates, nedges, 0
     except Unbound as e:
         R.count("configs_model_not_bound")
         R.cap("model not bound to this tree for %s: %s" % (cfgname, str(e)[:300]))
@@ -267,7 +271,9 @@ def main():
         wd = os.path.join(os.getcwd(), "w%d" % i)
         kind, k, j, c = w
         if kind == "conf":
-            s, e, t = conform(R, wd, k, j, c, 1 if k > 1 else 0, 300 if not thorough else 1500)
+            # preemption bound of the implementation executions walked through the model: 1 for two processes,
+            # 0 for three (non-preemptive switches only; the forced model paths cover the rest)
+            s, e, t = conform(R, wd, k, j, c, 1 if k == 2 else 0, 300 if not thorough else 1500)
             states += s; trans += e; traces += t
         elif kind == "crash":
             ok, out, ns, ng = run_tlc(wd, k, j, c, True, True, False, workers=8)
